@@ -1036,7 +1036,7 @@ CONSTANTS
   MaxVariant1 = %(mv1)d
   MaxVariant2 = %(mv2)d
   EMIT = TRUE
-INVARIANTS C10_Iff C10_AllOfScope C10_NoInvented EmitDone
+INVARIANTS C10_Iff C10_AllOfScope C10_EachConflict C10_NoInvented EmitDone
 CHECK_DEADLOCK FALSE
 """
 DO_FOCUS = {
